@@ -324,6 +324,7 @@ type TxSpec struct {
 	ConAmt   int64             `json:"conamt,omitempty"` // amount transferred to the contract with the call
 	Desc     string            `json:"desc,omitempty"`
 	DescLen  int               `json:"desclen,omitempty"`  // bulky transaction: desc = DescLen filler bytes
+	NoncePad int               `json:"noncepad,omitempty"` // the nonce (a free-form string field) is padded to more than NoncePad bytes
 	Coinbase bool              `json:"coinbase,omitempty"` // adversarial: coinbase flag on a submitted transaction
 	Marked   bool              `json:"marked,omitempty"`   // adversarial: ModifyBlock{Marked} set (metadata outside id and signatures)
 	Autogen  bool              `json:"autogen,omitempty"`  // adversarial: autogen flag on a submitted transaction
@@ -361,6 +362,20 @@ func (o OutSpec) amountBytes() []byte {
 		a = big.NewInt(0)
 	}
 	return a.Bytes()
+}
+
+// NonceOf renders the nonce of a spec: "n<seq>", padded with a position-dependent filler when NoncePad is set (string
+// fields far longer than any name or address: every byte of them is covered content)
+func NonceOf(spec *TxSpec) string {
+	n := fmt.Sprintf("n%d", spec.Seq)
+	if spec.NoncePad > 0 {
+		b := []byte(n + "-")
+		for i := 0; len(b) < spec.NoncePad+len(n)+1; i++ {
+			b = append(b, byte('a'+i%23))
+		}
+		n = string(b)
+	}
+	return n
 }
 
 // descOf renders the description of a spec (DescLen filler bytes for bulky transactions).
@@ -464,7 +479,7 @@ func BuildTx(spec *TxSpec, pre *PreExecResult) *pb.Transaction {
 	if v == 0 {
 		v = 3
 	}
-	tx := &pb.Transaction{Version: v, Nonce: fmt.Sprintf("n%d", spec.Seq), Timestamp: int64(spec.Seq), Initiator: k.Address,
+	tx := &pb.Transaction{Version: v, Nonce: NonceOf(spec), Timestamp: int64(spec.Seq), Initiator: k.Address,
 		AuthRequire: []string{k.Address}, Desc: descOf(spec), Coinbase: spec.Coinbase, Autogen: spec.Autogen}
 	if spec.Marked {
 		tx.ModifyBlock = &pb.ModifyBlock{Marked: true, EffectiveTxid: "00"}
